@@ -56,6 +56,14 @@ def final_grads(prog):
 
 def oracle(prog, idx):
     fails = engcheck.dual_oracle(prog)
+    if not fails and prog and prog[-1][0] == "back":
+        # ... and the views: every non-constant view that L's owners feed reports the corresponding view of its base's
+        # (exactly checked) gradient — value and availability (C06's predicate on this program)
+        from .c06 import check_views
+
+        ex, res = engcheck.run_all(prog)
+        if res[-1] == "ok":
+            fails += [(c, m) for c, m in check_views(ex.v) if c in ("view-grad-none", "view-grad-value")]
     # order-independence: commuted operands give bit-identical gradients
     a, b = final_grads(prog), final_grads(commuted(prog))
     for n in a:
@@ -142,6 +150,56 @@ def paths_case(args):
     return {"name": name, "fails": fails, "args": list(args)}
 
 
+def order_layout_cases(only=None):
+    """L = A + B and L = B + A, where A uses a leaf directly (times a C-ordered constant) and B uses it through a view chain:
+    every tensor involved — leaf and views — gets the exact gradient in both orders, for C- and Fortran-ordered leaves
+    (the memory layout of whichever contribution arrives first must not matter).  -> [(name, message)]"""
+    out = []
+    chains = [
+        ("T.reshape(-1)", lambda x: [x.T, x.T.reshape(-1)], lambda g: [g.T, g.T.reshape(-1)]),
+        ("reshape(-1)", lambda x: [x.reshape(-1)], lambda g: [g.reshape(-1)]),
+        ("[1:].T", lambda x: [x[1:], x[1:].T], lambda g: [g[1:], g[1:].T]),
+        ("T[::2]", lambda x: [x.T, x.T[::2]], lambda g: [g.T, g.T[::2]]),
+    ]
+    for lay in ("C", "F"):
+        for cname, chain, gchain in chains:
+            if cname == "T.reshape(-1)" and lay == "C" or cname == "reshape(-1)" and lay == "F":
+                continue  # (that reshape copies on this layout: not a view chain)
+            grads = {}
+            for order in ("A+B", "B+A"):
+                name = f"{lay}-leaf|{cname}|{order}"
+                a = np.arange(12.0).reshape(3, 4) + 1.0
+                x = mg.tensor(np.asfortranarray(a) if lay == "F" else a)
+                c = np.arange(12.0).reshape(3, 4) * 0.5 + 1.0
+                vs = []
+                t = x
+                views = chain(x)
+                # rebuild the chain as one tensor per link (each link a view of the previous one)
+                vs = views
+                w = np.arange(float(vs[-1].size)).reshape(vs[-1].shape) + 2.0
+                A = (x * c).sum()
+                B = (vs[-1] * w).sum()
+                L = A + B if order == "A+B" else B + A
+                try:
+                    L.backward()
+                except Exception as e:  # noqa: BLE001
+                    out.append((name, f"raised {type(e).__name__}: {str(e)[:80]}"))
+                    continue
+                # exact expectation: dL/dx = c + scatter of w through the chain
+                gx = np.array(c, order="F" if lay == "F" else "C")  # laid out like the leaf: the chain is a view chain of it
+                gv = gchain(gx)  # views of gx
+                gv[-1][...] += w
+                exp = [gx] + [np.array(g) for g in gchain(gx)]
+                got = [x.grad] + [v.grad for v in vs]
+                for k, (g, e) in enumerate(zip(got, exp)):
+                    if g is None or g.shape != e.shape or not np.array_equal(g, e):
+                        which = "the leaf" if k == 0 else f"link {k} of the chain"
+                        if only is None or name == only:
+                            out.append((name, f"{which}: gradient {None if g is None else np.asarray(g).tolist()}, exact {e.tolist()}"))
+                        break
+    return out
+
+
 def nontrivial(prog):
     f = progs.features(prog)
     # at least two ops, and a tensor used at least twice (fan-out / repeated operand)
@@ -187,12 +245,22 @@ def run(ctx: Ctx) -> Outcome:
                 seen.add(sig)
                 out.violations.append(Violation(sig, f"{r['name']}: {msg}", {"kind": "paths", "args": r["args"]}))
     out.stats["paths_cases"] = hist
+    for name, msg in order_layout_cases():
+        sig = f"C01|order-layout|{name.rsplit('|', 1)[0]}"
+        if sig not in seen:
+            seen.add(sig)
+            out.violations.append(Violation(sig, f"{name}: {msg}", {"kind": "order-layout", "name": name}))
+    out.evaluations += 12
     out.assumptions = ["exact-integer fragment (float64 holding small integers); float rounding order is not claimed",
                        "each op's VJP being the transpose of its derivative is C02"]
     return out
 
 
 def replay(data) -> bool:
+    if data["replay"].get("kind") == "order-layout":
+        res = order_layout_cases(only=data["replay"]["name"])
+        print(res)
+        return bool(res)
     if data["replay"].get("kind") == "paths":
         res = paths_case(tuple(data["replay"]["args"]))
         print(res)
